@@ -253,6 +253,35 @@ def _floats_for_int():
     return st.tuples(st.integers(0, 1), e, MANT).map(lambda t: {'block': 'FPtoInt_SP', 'a': _mk(*t)})
 
 
+_EDGE_MANT = sorted({0, 1, 2, 3, mask(23), mask(23) - 1, 1 << 22, (1 << 22) + 1, (1 << 22) - 1, 0x2AAAAA, 0x555555} |
+                    {1 << k for k in range(23)} | {mask(23) ^ mask(k) for k in range(23)})
+
+
+def _boundary_task(task):
+    """every exponent x both signs x the edge significands: powers of two (incl. exactly +-2**31), their neighbours"""
+    evals = nt = 0
+    cls = {}
+    fails = {}
+    for e in task['exps']:
+        for s_ in (0, 1):
+            for m in _EDGE_MANT:
+                case = {'block': task['block'], 'a': _mk(s_, e, m)}
+                r = run_case(case)
+                if r['discard']:
+                    continue
+                evals += 1
+                nt += 1 if r['nt'] else 0
+                for c in r['cls']:
+                    cls[c] = cls.get(c, 0) + 1
+                if r['fail']:
+                    sg = r['fail']['sig']
+                    if sg not in fails:
+                        fails[sg] = {'sig': sg, 'msg': r['fail']['msg'], 'count': 1, 'case': case}
+                    else:
+                        fails[sg]['count'] += 1
+    return {'evals': evals, 'nt': nt, 'cls': cls, 'fails': list(fails.values()), 'samples': []}
+
+
 def strata(tier):
     n = 3000 if tier == 'quick' else 120000
     return [
@@ -261,5 +290,7 @@ def strata(tier):
         {'name': 'comparator', 'kind': 'hyp', 'examples': n, 'strategy': lambda: pairs('FPComparator_SP'), 'run_case': run_case},
         {'name': 'comparator_abs', 'kind': 'hyp', 'examples': n, 'strategy': lambda: pairs('FPComparator_SP.abs'), 'run_case': run_case},
         {'name': 'int_to_fp', 'kind': 'hyp', 'examples': n, 'strategy': _ints, 'run_case': run_case},
+        {'name': 'fp_to_int_every_exponent_edge_significands', 'kind': 'enum', 'exhaustive': True, 'run_task': _boundary_task,
+         'tasks': [{'block': 'FPtoInt_SP', 'exps': list(range(e0, min(255, e0 + 16)))} for e0 in range(1, 255, 16)]},
         {'name': 'fp_to_int', 'kind': 'hyp', 'examples': n, 'strategy': _floats_for_int, 'run_case': run_case},
     ]
